@@ -43,12 +43,12 @@ def cells(tier):
     out.append(cell("simple s2 S2|stop1,T1 (early stop)", sc, MON))
     # two pools given the same explicit name (legal): numbered independently
     sc = scen([pool(2, name="same"), pool(2, name="same")], [[A("A", 2)], [A("B", 2, p=1)]], outcomes=["ret"], ecb="plain", ccb="plain")
-    out.append(cell("two pools named alike A2|B2@1", sc, MON))
+    out.append(cell("two pools named alike A2|B2@1", sc, MON, own_only=True))
     sc = scen([pool(2, "SimpleTaskPool", name="same", ecb="plain", ccb="plain"), pool(2, "SimpleTaskPool", name="same", ecb="plain", ccb="plain")],
               [[S("S", 2)], [S("T", 1, p=1), S("U", 1, p=1)]], outcomes=["ret"])
-    out.append(cell("two simple pools named alike S2|T1,U1@1", sc, MON))
+    out.append(cell("two simple pools named alike S2|T1,U1@1", sc, MON, own_only=True))
     sc = scen([pool(2, name="same")], [[A("A", 2)], [["new_pool", {"name": "same", "size": 2}, {}], A("B", 2, p=1)]], outcomes=["ret"], ecb="plain", ccb="plain")
-    out.append(cell("pool named x with tasks; later a second pool named x", sc, MON))
+    out.append(cell("pool named x with tasks; later a second pool named x", sc, MON, own_only=True))
     sc = scen([pool(1), pool(2)], [[A("A", 1), ["gac"]], [A("B", 1, p=1)], [["new_pool"], A("C", 1, p=2)]], outcomes=["ret"])
     out.append(cell("pools a,b; close a; new pool c; tasks in b and c", sc, MON))
     if not q:
